@@ -29,6 +29,14 @@ FEATURES = {
                      f'<xs:complexType name="I"><xs:simpleContent><xs:restriction base="t:B"><xs:pattern value="[0-9]+"/></xs:restriction></xs:simpleContent></xs:complexType>'
                      f'<xs:complexType name="D"><xs:simpleContent><xs:restriction base="t:B"><xs:pattern value="[0-9]{{4}}-[0-9]{{2}}"/></xs:restriction></xs:simpleContent></xs:complexType></xs:schema>',
                      [R + '<t:v k="i">12</t:v><t:v k="d">2020-01</t:v><t:v>free</t:v></t:r>', R + '<t:v k="i">x</t:v></t:r>', R + '<t:v k="d">12</t:v><t:v k="i">3</t:v></t:r>', R + '<t:v k="e">1</t:v></t:r>', R + '<t:v k="q">z</t:v></t:r>']),
+    'alternatives-default': (('1.1',), f'{T}><xs:element name="r"><xs:complexType><xs:sequence><xs:element name="shape" maxOccurs="unbounded" type="t:Base"><xs:alternative test="@kind=\'c\'" type="t:Circle"/>'
+                             f'<xs:alternative type="t:Ext"/></xs:element><xs:element name="size" minOccurs="0" type="xs:decimal"><xs:alternative test="not(@unit)" type="t:Pos"/></xs:element></xs:sequence></xs:complexType></xs:element>'
+                             f'<xs:complexType name="Base"><xs:sequence><xs:element name="id" type="xs:int"/></xs:sequence><xs:attribute name="kind"/></xs:complexType>'
+                             f'<xs:complexType name="Circle"><xs:complexContent><xs:extension base="t:Base"><xs:sequence><xs:element name="radius" type="xs:decimal"/></xs:sequence></xs:extension></xs:complexContent></xs:complexType>'
+                             f'<xs:complexType name="Ext"><xs:complexContent><xs:extension base="t:Base"><xs:sequence><xs:element name="note" type="xs:string" minOccurs="0"/></xs:sequence></xs:extension></xs:complexContent></xs:complexType>'
+                             f'<xs:simpleType name="Pos"><xs:restriction base="xs:decimal"><xs:minExclusive value="0"/></xs:restriction></xs:simpleType></xs:schema>',
+                             [R + '<t:shape><t:id>1</t:id><t:note>n</t:note></t:shape><t:shape kind="c"><t:id>2</t:id><t:radius>1.5</t:radius></t:shape><t:size>2</t:size></t:r>',
+                              R + '<t:shape><t:id>1</t:id></t:shape><t:size>-1</t:size></t:r>', R + '<t:shape kind="c"><t:id>1</t:id><t:note>n</t:note></t:shape></t:r>', R + '<t:shape kind="q"><t:id>1</t:id><t:note>n</t:note></t:shape></t:r>']),
     'assertions': (('1.1',), f'{T}><xs:element name="r"><xs:complexType><xs:sequence><xs:element name="lo" type="xs:int"/><xs:element name="hi" type="xs:int"/><xs:element name="s" minOccurs="0">'
                    f'<xs:simpleType><xs:restriction base="xs:int"><xs:assertion test="$value mod 2 = 0"/></xs:restriction></xs:simpleType></xs:element></xs:sequence>'
                    f'<xs:attribute name="n" type="xs:int"/><xs:assert test="t:lo le t:hi"/><xs:assert test="not(@n) or @n = count(*)"/></xs:complexType></xs:element></xs:schema>',
